@@ -1,0 +1,104 @@
+//! Verification hooks (compiled only with `--cfg proto_vulcan_verif`).
+//!
+//! * `tick()`            - step budget for the loops of `Solver::next`/`peek`/`trunc`.
+//! * `schedule()`        - forces an iteration order on the constraints collected by
+//!                         `State::run_constraints`.
+//! * `engine_event()`    - hands the current stream to an installed observer.
+//!
+//! Nothing here changes behaviour unless a test harness installs a budget, a schedule
+//! or an observer on the current thread.
+use std::any::Any;
+use std::cell::{Cell, RefCell};
+use std::fmt::Debug;
+
+/// Payload of the unwind raised when an armed step budget is exhausted.
+#[derive(Debug)]
+pub struct VerifBudget;
+
+thread_local! {
+    static TICKS: Cell<u64> = Cell::new(0);
+    static BUDGET: Cell<u64> = Cell::new(0);
+    static SCHEDULE: Cell<u64> = Cell::new(0);
+    static SCHEDULE_CALLS: Cell<u64> = Cell::new(0);
+    static OBSERVER: RefCell<Option<Box<dyn Fn(&'static str, &dyn Any)>>> = RefCell::new(None);
+}
+
+/// Arms the step budget (0 disarms) and resets the tick counter.
+pub fn arm_budget(budget: u64) {
+    TICKS.with(|t| t.set(0));
+    BUDGET.with(|b| b.set(budget));
+}
+
+pub fn ticks() -> u64 {
+    TICKS.with(|t| t.get())
+}
+
+#[inline]
+pub fn tick() {
+    let n = TICKS.with(|t| {
+        let n = t.get() + 1;
+        t.set(n);
+        n
+    });
+    let budget = BUDGET.with(|b| b.get());
+    if budget != 0 && n > budget {
+        BUDGET.with(|b| b.set(0));
+        std::panic::panic_any(VerifBudget);
+    }
+}
+
+/// Installs a constraint schedule: 0 = leave the hash order alone; k > 0 = sort the
+/// constraints by their `Debug` text and apply permutation number `k - 1` (mixed with
+/// the call index for k > 720) at every `run_constraints` call.
+pub fn set_schedule(k: u64) {
+    SCHEDULE.with(|s| s.set(k));
+    SCHEDULE_CALLS.with(|c| c.set(0));
+}
+
+pub fn schedule_calls() -> u64 {
+    SCHEDULE_CALLS.with(|c| c.get())
+}
+
+pub fn schedule<T: Debug>(v: &mut Vec<T>) {
+    let k = SCHEDULE.with(|s| s.get());
+    if k == 0 || v.len() < 2 {
+        return;
+    }
+    let call = SCHEDULE_CALLS.with(|c| {
+        let n = c.get();
+        c.set(n + 1);
+        n
+    });
+    let mut keyed: Vec<(String, T)> = v.drain(..).map(|c| (format!("{:?}", c), c)).collect();
+    keyed.sort_by(|a, b| a.0.cmp(&b.0));
+    let mut idx = k - 1;
+    if k > 720 {
+        idx = idx
+            .wrapping_mul(6364136223846793005)
+            .wrapping_add(call.wrapping_mul(1442695040888963407))
+            >> 11;
+    }
+    // Lehmer-code decoding of permutation number `idx`.
+    let mut pool: Vec<(String, T)> = keyed;
+    let mut out: Vec<T> = Vec::with_capacity(pool.len());
+    let mut n = pool.len() as u64;
+    while n > 0 {
+        let i = (idx % n) as usize;
+        idx /= n;
+        out.push(pool.remove(i).1);
+        n -= 1;
+    }
+    *v = out;
+}
+
+pub fn set_observer(f: Option<Box<dyn Fn(&'static str, &dyn Any)>>) {
+    OBSERVER.with(|o| *o.borrow_mut() = f);
+}
+
+pub fn engine_event(what: &'static str, stream: &dyn Any) {
+    OBSERVER.with(|o| {
+        if let Some(f) = o.borrow().as_ref() {
+            f(what, stream);
+        }
+    });
+}
